@@ -508,15 +508,11 @@ func (f *formatter) writeOptionName(optionNameNode *ast.OptionNameNode) {
 			fieldReferenceNode := optionNameNode.Parts[0]
 			if fieldReferenceNode.Open != nil {
 				f.writeNode(fieldReferenceNode.Open)
-				if info := f.nodeInfo(fieldReferenceNode.Open); info.TrailingComments().Len() > 0 {
-					f.writeInlineComments(info.TrailingComments())
-				}
+				f.writeTrailingInlineComments(fieldReferenceNode.Open)
 				f.writeInline(fieldReferenceNode.Name)
 			} else {
 				f.writeNode(fieldReferenceNode.Name)
-				if info := f.nodeInfo(fieldReferenceNode.Name); info.TrailingComments().Len() > 0 {
-					f.writeInlineComments(info.TrailingComments())
-				}
+				f.writeTrailingInlineComments(fieldReferenceNode.Name)
 			}
 			if fieldReferenceNode.Close != nil {
 				f.writeInline(fieldReferenceNode.Close)
@@ -1866,9 +1862,7 @@ func (f *formatter) writeStartMaybeCompact(node ast.Node, forceCompact bool) {
 		// token, which have been written along with that token.
 		return
 	}
-	if info.TrailingComments().Len() > 0 {
-		f.writeInlineComments(info.TrailingComments())
-	}
+	f.writeTrailingInlineComments(node)
 }
 
 // writeInline writes the node and its surrounding comments in-line.
@@ -1897,6 +1891,17 @@ func (f *formatter) writeInline(node ast.Node) {
 	f.writeLeadingInlineComments(info)
 	f.writeNode(node)
 	f.writeInlineComments(info.TrailingComments())
+}
+
+// writeTrailingInlineComments writes the trailing comments of a token in-line,
+// with the same spacing rules as writeInline.
+func (f *formatter) writeTrailingInlineComments(node ast.Node) {
+	inline := f.inline
+	f.inline = true
+	defer func() {
+		f.inline = inline
+	}()
+	f.writeInlineComments(f.nodeInfo(node).TrailingComments())
 }
 
 // writeLeadingInlineComments writes the leading comments of a token in-line,
